@@ -1772,6 +1772,7 @@ fn c10_base(r: &mut Prng) -> C10Plan {
         silent_after_garbage: r.chance(1, 2),
         coop: r.chance(1, 6),
         connect_behind_garbage: r.chance(1, 3),
+        drop_held: r.chance(1, 3),
     }
 }
 impl Family for C10Family {
